@@ -38,6 +38,11 @@ class Zygote:
         env["PYTHONHASHSEED"] = hashseed
         env["PYTHONDONTWRITEBYTECODE"] = "1"
         env.pop("PYTHONPATH", None)
+        # no UTF-8 mode: the default text encoding follows LC_CTYPE, which runs can switch
+        # (core.apply_process_env); the pipe protocol itself is pinned to UTF-8
+        for k in [k for k in env if k.startswith("LC_") or k in ("LANG", "LANGUAGE")]:
+            del env[k]
+        env.update(PYTHONUTF8="0", PYTHONCOERCECLOCALE="0", LC_ALL="C.UTF-8", PYTHONIOENCODING="utf-8")
         cfg = {"prop": prop, "cpu": cpu, "src": src or src_root()}
         self.proc = subprocess.Popen(
             [PY, "-X", "faulthandler", ZYGOTE, json.dumps(cfg)],
@@ -46,6 +51,7 @@ class Zygote:
             stderr=subprocess.PIPE,
             env=env,
             text=True,
+            encoding="utf-8",
             cwd=VERIF_ROOT,
         )
         self._err: list[str] = []
